@@ -8,7 +8,7 @@ sel=("$@"); [ ${#sel[@]} -eq 0 ] && sel=($(ls seeded))
 [ -z "$(git -C /repo status --porcelain)" ] || { echo "/repo is not clean"; exit 2; }
 for k in "${sel[@]}"; do
   id="${k%%-*}"
-  git -C /repo apply "seeded/$k/patch.diff" || { echo "$k: patch does not apply"; continue; }
+  git -C /repo apply "/verif/seeded/$k/patch.diff" || { echo "$k: patch does not apply"; continue; }
   out="$(VERIF_OUT=/tmp/seed-replay-out ./check "$id" 2>&1)"; rc=$?
   git -C /repo checkout -- . ; git -C /repo clean -fdq
   n=$(echo "$out" | grep -c '^VIOLATION')
